@@ -245,6 +245,10 @@ def judge(ctx, case):
         re = rc.family_complete(effects, has_int, frame)
         r = rc.khatri_rao_rows(j, re)
         indep, same, rx, rr, rxr = rc.span_report(zf, r)
+        ncells = int((np.abs(j).sum(axis=0) > 0).sum())
+        if rr != ncells * rc.model_dim(effects, has_int, frame, width):
+            ctx.classes["unjudged:data_not_in_general_position"] += 1
+            continue
         facname = ":".join(f)
         info = dict(full, factor=facname)
         if not indep:
